@@ -19,7 +19,10 @@ MISSING = dataclasses.MISSING
 class Opts:
     """Encoding options that are part of the documented behaviour of a dialect."""
 
-    def __init__(self, native=(), omit_none=False, namedtuple_as_dict=False, by_alias=False):
+    def __init__(self, native=(), omit_none=False, namedtuple_as_dict=False, by_alias=False, none_fallback=False):
+        # none_fallback: NOT reference behaviour -- a model of one known defect (a null union member swallowing
+        # unmatched input), used only to classify a counterexample for known_findings.json
+        self.none_fallback = none_fallback
         self.native = tuple(native)  # types left unconverted (format dialects)
         self.omit_none = omit_none
         self.namedtuple_as_dict = namedtuple_as_dict
@@ -27,6 +30,7 @@ class Opts:
 
 
 PLAIN = Opts()
+NONE_FALLBACK = Opts(none_fallback=True)
 
 
 class RefError(Exception):
@@ -375,6 +379,8 @@ def ref_union_decode(ti, d, tvmap=None, o=PLAIN):
     #    matches only null (and null was handled in step 1)
     for a, mi in scalar_members:
         if mi.kind == "none":
+            if o.none_fallback:
+                return None
             continue
         try:
             return ref_decode(a, d, tvmap, o)
@@ -407,6 +413,11 @@ def decode_dataclass(ti, d, tvmap, o):
             allowed.add(a or n)
             if allow_name:
                 allowed.add(n)
+        for k in cls.__mro__:
+            disc = getattr(k.__dict__.get("Config"), "discriminator", None)
+            if disc is not None and getattr(disc, "field", None):
+                allowed.add(disc.field)  # a class-level discriminator field is accepted
+                break
         extra = set(d.keys()) - allowed
         if extra:
             raise RefError("extra", holder=cls, extra=extra)
